@@ -183,9 +183,45 @@ struct IdxRun<'a> {
     had_reload: bool,
     had_flush: bool,
     ops_at_full: u64,
+    /// the locations every key has had so far (newest last, the last few)
+    past: BTreeMap<[u8; 9], Vec<Loc>>,
 }
 
 impl IdxRun<'_> {
+    /// The location for an insertion / update of `k`. Locations recur: a repair or verify pass registers an object
+    /// again where it finds it, a move can be undone, a removed object can be registered again at the place its bytes
+    /// still occupy. So, besides fresh locations, a key gets a location it had earlier in the history (a third of the
+    /// calls on a key that has a past) - the one it has now, the one it had before the last update, the one it had
+    /// before it was removed - or, rarely, the location another key has right now.
+    fn loc_for(&mut self, k: &[u8; 9], rng: &mut Rng) -> Loc {
+        if let Some(p) = self.past.get(k).filter(|p| !p.is_empty()) {
+            if rng.chance(1, 3) {
+                let loc = *rng.pick(p);
+                let what = match self.m.map.get(k) {
+                    Some(cur) if *cur == loc => "current_location_again",
+                    Some(_) => "earlier_location_of_present_key",
+                    None => "earlier_location_of_removed_key",
+                };
+                self.h.stats.add(&format!("index.location_recurs.{what}"), 1);
+                return loc;
+            }
+        }
+        if !self.m.map.is_empty() && rng.chance(1, 16) {
+            if let Some(other) = self.pick_present(rng).filter(|o| o != k) {
+                self.h.stats.add("index.location_recurs.location_of_another_key", 1);
+                return self.m.map[&other];
+            }
+        }
+        gen_loc(rng, &mut self.h.stats)
+    }
+    fn remember_loc(&mut self, k: &[u8; 9], loc: Loc) {
+        let p = self.past.entry(*k).or_default();
+        p.retain(|l| *l != loc);
+        p.push(loc);
+        if p.len() > 3 {
+            p.remove(0);
+        }
+    }
     fn fill(&self) -> usize {
         let total: usize = (0..16u8).map(|b| self.im.bucket_entry_count(b)).sum();
         total.saturating_sub(self.im.stats().total_entries)
@@ -412,6 +448,7 @@ fn run_index(ctx: &Ctx, kind: &'static str, idx: usize, rng: &mut Rng) -> Result
         had_reload: false,
         had_flush: false,
         ops_at_full: 0,
+        past: BTreeMap::new(),
     };
     r.h.stats.add(&format!("histories.{kind}"), 1);
     if target.is_some() {
@@ -509,7 +546,7 @@ fn run_index(ctx: &Ctx, kind: &'static str, idx: usize, rng: &mut Rng) -> Result
                         None => r.new_key(rng),
                     }
                 };
-                let loc = gen_loc(rng, &mut r.h.stats);
+                let loc = r.loc_for(&k, rng);
                 r.h.log(format!("add_entry {} {:?}", hex::encode(k), loc));
                 r.h.stats.add("index.ops.add_entry", 1);
                 let before = r.m.map.get(&k).copied();
@@ -518,6 +555,7 @@ fn run_index(ctx: &Ctx, kind: &'static str, idx: usize, rng: &mut Rng) -> Result
                 match res {
                     Ok(()) => {
                         adds_ok += 1;
+                        r.remember_loc(&k, loc);
                         r.m.map.insert(k, loc);
                         r.m.removed.retain(|x| x != &k);
                         r.m.dirty[b] = true;
@@ -545,13 +583,14 @@ fn run_index(ctx: &Ctx, kind: &'static str, idx: usize, rng: &mut Rng) -> Result
             "update" | "update_absent" => {
                 let k = if op == "update" { r.pick_present(rng).unwrap_or_else(|| r.pick_absent(rng)) } else { r.pick_absent(rng) };
                 let present = r.m.map.contains_key(&k);
-                let loc = gen_loc(rng, &mut r.h.stats);
+                let loc = r.loc_for(&k, rng);
                 r.h.log(format!("update_entry {} {:?} present={present}", hex::encode(k), loc));
                 r.h.stats.add("index.ops.update_entry", 1);
                 let ok = r.im.update_entry(&ekey_for(&k, rng), loc.0, loc.1, loc.2);
                 let b = bucket9(&k) as usize;
                 r.h.stats.add(&format!("index.update_entry.{ok}.present={present}"), 1);
                 if ok {
+                    r.remember_loc(&k, loc);
                     r.m.map.insert(k, loc);
                     r.m.removed.retain(|x| x != &k);
                     r.m.dirty[b] = true;
@@ -1997,7 +2036,7 @@ fn kind_static(s: &str) -> Option<&'static str> {
 
 fn main() {
     let ctx = Ctx::init("C05", "exploration");
-    ctx.set_rule("a case is one seeded history: IndexManager (20-400 operations, or 1300-2700 bucket-targeted operations filling the 1260-entry update section of one bucket) or ResidencyDb/ResidencyContainer (20-400 operations, or a populated database with a >10000-key delete batch); non-trivial = the history contains a flush or reload (save+load) after at least one successful remove/update (index) or non-resident mark/delete (residency); distinct by hash of the executed operation trace");
+    ctx.set_rule("a case is one seeded history: IndexManager (20-400 operations, or 1300-2700 bucket-targeted operations filling the 1260-entry update section of one bucket; locations are fresh or recur: a key is added / updated at a location it had earlier, also after a flush and a remove or move) or ResidencyDb/ResidencyContainer (20-400 operations, or a populated database with a >10000-key delete batch); non-trivial = the history contains a flush or reload (save+load) after at least one successful remove/update (index) or non-resident mark/delete (residency); distinct by hash of the executed operation trace");
     ctx.assume("the harness map model (BTreeMap keyed by the 9-byte truncated key / the 16-byte residency key) is the specification of 'most recent insertion or update wins'");
     ctx.assume("a reload without a preceding save_all is judged only when every bucket is known to be on disk (saved, or flushed while it had pending updates); otherwise the history saves first");
     redirect_stderr();
@@ -2123,6 +2162,10 @@ fn main() {
             "dyn.ops.entry_count",
             "dyn.key_derivation.agrees",
             "dyn.truncated_read_observed",
+            // locations that recur in the history of a key
+            "index.location_recurs.current_location_again",
+            "index.location_recurs.earlier_location_of_present_key",
+            "index.location_recurs.earlier_location_of_removed_key",
         ] {
             // "a full update section" is a state of the implementation, not of the workload: when a history put far more
             // than 1260 entries into one bucket and the section was still never observed full, the implementation merges
